@@ -99,7 +99,9 @@ class Lab:
             # creation time is not arrival time: most packets have been under way for a while when they reach the element under
             # test (queues and hops upstream); no element may take packet.time for the instant of arrival
             age = INJECT_AGES[(i * 5 + len(workload)) % len(INJECT_AGES)]
-            pkt = Packet(t - age, size, i + 1, src=f"{src_prefix}{flow}", flow_id=flow, payload=payload)
+            # every packet carries its own flow-id object (ids parsed from headers are equal, not identical)
+            fid = int(str(flow)) if isinstance(flow, int) and not isinstance(flow, bool) else flow
+            pkt = Packet(t - age, size, i + 1, src=f"{src_prefix}{flow}", flow_id=fid, payload=payload)
             pkts.append(pkt)
             self._arrive(entry, pkt, t, late)
         self.packets.extend(pkts)
